@@ -118,6 +118,7 @@ def finish(ctx, t0, write=True, as_json=False):
             'instance_counts': ctx.stats,
             'known_findings_reported': sorted(kf),
             'notes': ctx.notes,
+            'locals_mapped_back_to_reference_names': getattr(ctx.repo, 'canon_notes', []),
             'analysed': {
                 'repo_root': repo_root(),
                 'modules': sorted(ctx.repo.modules),
